@@ -190,8 +190,9 @@ theorem C18_upload_part_refines_partial (H : Hashes) (dl : Nat) {s : State} (hi 
     abs (step H dl s (.uploadPart who b k u n c)).1 = (StoreSpec.step H (abs s) (.uploadPart who b k u n c)).1 ∧
     Inv (step H dl s (.uploadPart who b k u n c)).1 := uploadPart_refines H dl hi hg
 
-/-- upload_part_copy of a whole source object. Partial — not covered: requests with `x-amz-copy-source-range`
-    (fs:part-copy-range-unchecked); excluded as for upload_part -/
+/-- upload_part_copy: the part becomes the source object, or its `bytes=first-last` slice. Partial — excluded: ranges the
+    store refuses but the backend accepts (open-ended, beyond the end: fs:part-copy-range-unchecked; malformed ranges
+    are not covered), part numbers outside 1..10000, and as for upload_part -/
 theorem C18_upload_part_copy_refines_partial (H : Hashes) (dl : Nat) {s : State} (hi : Inv s) {who : Who} {b k : Bytes}
     {u : UploadRef} {n : Int} {sb sk : Bytes} {range : Option Bytes} (hg : UploadPartCopyOk s b k u n sb sk range) :
     (step H dl s (.uploadPartCopy who b k u n sb sk range)).2 =
@@ -315,6 +316,9 @@ example : (run H0 4096 {} demo).2.map Resp.core = (StoreSpec.run H0 {} demo).2.m
 example : PutOk (run H0 4096 {} (demo.take 3)).1 bka kDE (some []) := by decide
 example : GetOk (run H0 4096 {} (demo.take 3)).1 bka kDE (some (.int 0 (some 99))) := by decide
 example : CopyOk (run H0 4096 {} (demo.take 11)).1 bka kDE bka kDF := by decide
+/-- a ranged part copy `bytes=1-3` from an existing object into the owner's upload -/
+example : UploadPartCopyOk (run H0 4096 {} (demo.take 16)).1 bka kX (some 1) 2 bka kDE
+    (some [98, 121, 116, 101, 115, 61, 49, 45, 51]) := by decide
 /-- … and they do exclude the recorded deviations: an overwrite without metadata over an object that has some -/
 example : ¬ PutOk (run H0 4096 {} (demo.take 3)).1 bka kDE none := by decide
 
